@@ -368,4 +368,14 @@ theorem tie_newUnstableFacts : newUnstableFacts = [
 
 theorem tie_extractionErrors : extractionErrors = [] := by decide
 
+/-- `createCall`: under the lock, an existing call is joined (wait), else mine is registered — Flight.step pc 0 / pc 3. -/
+theorem tie_createCallShape : createCallShape = ["call g.lock.Lock", "if ok {", "call g.lock.Unlock", "call c.wg.Wait",
+    "return", "}", "call c.wg.Add", "mapset g.calls", "call g.lock.Unlock", "return"] := by rfl
+
+/-- `makeCall`: fn runs, then (deferred) the call is unregistered and its waiters released — Flight.step pc 1, 2. -/
+theorem tie_makeCallShape : makeCallShape = ["defer{", "func{", "call g.lock.Lock", "delete g.calls", "call g.lock.Unlock",
+    "call c.wg.Done", "}", "call func", "}", "call fn", "store c.val", "store c.err"] := by rfl
+
+theorem tie_doExShape : doExShape = ["call g.createCall", "if done {", "return", "}", "call g.makeCall", "return"] := by rfl
+
 end GoZero.C06.Tie
